@@ -19,6 +19,8 @@ use std::io::{self, Write};
 
 #[cfg(test)]
 mod interpret;
+#[cfg(feature = "verif_hooks")]
+pub mod verif_hooks;
 
 pub use self::core::Lr1Result;
 pub use self::error::report_error;
